@@ -26,7 +26,10 @@ def run_batch(cases, timeout=120):
                     _, i, payload = line.split(' ', 2)
                     out[int(i)] = json.loads(payload)
             if begun is not None and out[begun] is None:
-                out[begun] = dict(crash=rc)
+                # the process died while this case ran. An earlier case of the batch may have corrupted the interpreter
+                # (patched bytecode with a stale exception table does that): the verdict for this case is its run ALONE.
+                solo = run_batch([cases[begun]], timeout) if len(cases) > 1 else [dict(crash=rc)]
+                out[begun] = solo[0] if solo[0] is not None else dict(crash=rc)
                 start = begun + 1
             elif rc != 0 and begun is None:
                 out[start] = dict(crash=rc, stderr='no case started')
